@@ -65,3 +65,30 @@ let iso_handler sh = fun args ->
 let () =
   register "iso" (iso_handler false);         (* the code as it is: a fresh null per parsed null / per hole *)
   register "iso_old" (iso_handler true)       (* historical: the shared static nulls of the tree before fix b456e5d1 *)
+
+(* isolog: where each document's output goes (Sys/LogModel.v).  Same history syntax as the driver. *)
+let () =
+  register "isolog" (fun args ->
+    let hist = match args with [] -> "" | h :: _ -> h in
+    let ops = List.filter (fun s -> s <> "") (String.split_on_char ';' hist) in
+    let parse s =
+      let n = String.length s in
+      let i = ref 1 in
+      while !i < n && s.[!i] >= '0' && s.[!i] <= '9' do incr i done;
+      let d = int_of_string (String.sub s 1 (!i - 1)) in
+      let sub = if !i < n then s.[!i] else ' ' in
+      (s.[0], d, sub) in
+    let evs = List.map (fun s -> let (k, d, _) = parse s in
+      (nat_of_int d, (match k with 'c' -> LCreate | 'r' -> LRedirect (nat_of_int d) | 'e' -> LEmit | _ -> LDestroy))) ops in
+    let res = log_run false evs in
+    (* the model answers which sink; "ok"/"skip" bookkeeping for non-emitting steps is the document table's *)
+    let alive = Hashtbl.create 8 in
+    String.concat "#" (List.map2 (fun s r ->
+      let (k, d, sub) = parse s in
+      let out = match k, r with
+        | 'c', _ -> Hashtbl.replace alive d (); "ok"
+        | 'x', _ -> if Hashtbl.mem alive d then (Hashtbl.remove alive d; "ok") else "skip"
+        | 'r', _ -> if Hashtbl.mem alive d then "ok" else "skip"
+        | _, None -> "skip"
+        | _, Some sk -> let i = int_of_nat sk in if i = 0 then (if sub = 'i' then "cout" else "cerr") else "o" ^ string_of_int i in
+      s ^ "=" ^ out) ops res))
